@@ -329,8 +329,12 @@ func (ex *executor) execInstr(st *state, in ssa.Instruction) {
 			return
 		}
 		r := ex.newRef(st)
-		a := &Addr{Kind: "obj", Base: r, Root: elem}
-		ex.store(st, a, zeroValue(elem))
+		if at, ok := elem.Underlying().(*types.Array); ok {
+			ex.zeroElems(st, r, at.Elem())
+		} else {
+			a := &Addr{Kind: "obj", Base: r, Root: elem}
+			ex.store(st, a, zeroValue(elem))
+		}
 		ex.setVal(t, Value{T: t.Type(), C: []*Term{r}})
 	case *ssa.Store:
 		av := ex.val(t.Addr)
@@ -778,6 +782,7 @@ func (ex *executor) execIndexAddr(st *state, t *ssa.IndexAddr) {
 	switch u := t.X.Type().Underlying().(type) {
 	case *types.Slice:
 		ln := x.C[2]
+		ex.noteIndex(idx)
 		if ex.safety {
 			ex.addObligation(st, "bounds", ex.srcText(t.Pos(), "index"), Implies(st.pc, BVCmp("bvult", idx, ln)), t.Pos())
 		}
